@@ -5,6 +5,7 @@ import ast
 
 from sa.astx import call_name, dotted, src, walk_local
 from sa.selftest import Mutant, Silent
+from sa.props._lib_k import no_crash
 from sa.source import AnalysisError
 
 PROPERTY = "C56"
@@ -340,24 +341,55 @@ def _encoder_total(ctx):
     ctx.need(isinstance(table, ast.List), "classInfo table")
     an = EscapeAnalysis(ctx, [JSON])
     param = sv.args.args[0].arg
-    loops = [n for n in ast.walk(sv) if isinstance(n, ast.For) and isinstance(n.iter, ast.Name) and n.iter.id == "classInfo" and isinstance(n.target, ast.Tuple)]
-    ctx.need(len(loops) == 1, "the loop over classInfo in objectSaveHook")
-    lp = loops[0]
-    tests = {c.func.id for st in ast.walk(sv) if isinstance(st, (ast.If, ast.IfExp, ast.While)) for c in ast.walk(st.test) if isinstance(c, ast.Call) and isinstance(c.func, ast.Name)}
+    # Which local names denote callables taken out of the classInfo table?  Followed through the loop that unpacks the rows, through a
+    # private helper that returns some of them as a tuple, and through the unpacking of that result.
+    width = {len(r.elts) for r in table.elts if isinstance(r, ast.Tuple)}
+    ctx.need(len(width) == 1 and all(isinstance(r, ast.Tuple) for r in table.elts), "classInfo rows of one width")
+    width = width.pop()
+    funcs = {n.name: n for n in js.tree.body if isinstance(n, ast.FunctionDef)}
+    positions = {}      # (function name, local name) -> column of classInfo
+    returns = {}        # function name -> [column, ...] for `return a, b`
+    for fname, fn in funcs.items():
+        for lp in ast.walk(fn):
+            if isinstance(lp, ast.For) and isinstance(lp.iter, ast.Name) and lp.iter.id == "classInfo" and isinstance(lp.target, ast.Tuple) and len(lp.target.elts) == width:
+                for pos, t in enumerate(lp.target.elts):
+                    if isinstance(t, ast.Name):
+                        positions[(fname, t.id)] = pos
+        cols = None
+        for r in ast.walk(fn):
+            if isinstance(r, ast.Return) and isinstance(r.value, ast.Tuple) and all(isinstance(e, ast.Name) and (fname, e.id) in positions for e in r.value.elts):
+                cols = [positions[(fname, e.id)] for e in r.value.elts]
+        if cols:
+            returns[fname] = cols
+    for fname, fn in funcs.items():
+        got = {}    # local holding a helper's tuple result -> helper
+        for st in ast.walk(fn):
+            if isinstance(st, ast.Assign) and len(st.targets) == 1:
+                v, t = st.value, st.targets[0]
+                helper = call_name(v) if isinstance(v, ast.Call) else (got.get(v.id) if isinstance(v, ast.Name) else None)
+                if helper in returns:
+                    if isinstance(t, ast.Name):
+                        got[t.id] = helper
+                    elif isinstance(t, ast.Tuple) and len(t.elts) == len(returns[helper]):
+                        for e, pos in zip(t.elts, returns[helper]):
+                            if isinstance(e, ast.Name):
+                                positions[(fname, e.id)] = pos
+    ctx.need(positions, "the code that takes predicates / savers out of classInfo")
+    called = {}     # column -> applied directly in a test (predicate) or not (saver)
+    for (fname, local), pos in positions.items():
+        fn = funcs[fname]
+        in_test = any(isinstance(c, ast.Call) and isinstance(c.func, ast.Name) and c.func.id == local
+                      for st in ast.walk(fn) if isinstance(st, (ast.If, ast.IfExp, ast.While)) for c in ast.walk(st.test))
+        is_called = any(isinstance(c, ast.Call) and isinstance(c.func, ast.Name) and c.func.id == local for c in ast.walk(fn))
+        if is_called:
+            called.setdefault(pos, []).append((local, in_test))
     analysed = []
-    for pos, t in enumerate(lp.target.elts):
-        if not isinstance(t, ast.Name):
-            continue
-        used = any(isinstance(c, ast.Call) and isinstance(c.func, ast.Name) and c.func.id == t.id for c in ast.walk(sv))
-        if not used:
-            continue
+    for pos, uses in sorted(called.items()):
         fns = []
         for i, row in enumerate(table.elts):
-            if not (isinstance(row, ast.Tuple) and len(row.elts) == len(lp.target.elts)):
-                raise AnalysisError("classInfo row does not match the unpacking in objectSaveHook")
             el = row.elts[pos]
             if isinstance(el, ast.Lambda):
-                fd = ast.FunctionDef(name=f"classInfo[{i}].{t.id}", args=el.args, body=[ast.Return(value=el.body)], decorator_list=[], lineno=el.lineno, col_offset=0)
+                fd = ast.FunctionDef(name=f"classInfo[{i}].{uses[0][0]}", args=el.args, body=[ast.Return(value=el.body)], decorator_list=[], lineno=el.lineno, col_offset=0)
                 fd._parent = js.tree
                 fd.body[0]._parent = fd
                 fns.append(fd)
@@ -365,7 +397,8 @@ def _encoder_total(ctx):
                 fns.append(js.find(el.id))
             else:
                 raise AnalysisError(f"classInfo[{i}][{pos}] is applied to event objects but is not a lambda / module function")
-        an.table_funcs[t.id] = [(fn, HOSTILE if t.id in tests else TYPED) for fn in fns]
+        for local, in_test in uses:
+            an.table_funcs[local] = [(fn, HOSTILE if in_test else TYPED) for fn in fns]
         analysed += [fn.name for fn in fns]
     an.run(JSON, "objectSaveHook", {param: HOSTILE})
     ej = ctx.func(JSON, "eventAsJSON")
@@ -619,17 +652,17 @@ def _dispatch(ctx):
 
 def check(ctx):
     with ctx.section("conversion tables"):
-        _conversion_tables(ctx)
+        no_crash('_conversion_tables', _conversion_tables, ctx)
     with ctx.section("flatten / format structure"):
-        _flatten_structure(ctx)
+        no_crash('_flatten_structure', _flatten_structure, ctx)
     with ctx.section("_formatEvent dispatch"):
-        _dispatch(ctx)
+        no_crash('_dispatch', _dispatch, ctx)
     with ctx.section("JSON"):
-        _json(ctx)
+        no_crash('_json', _json, ctx)
     with ctx.section("JSON fallback encoder"):
-        _encoder_total(ctx)
+        no_crash('_encoder_total', _encoder_total, ctx)
     with ctx.section("concrete family"):
-        _concrete(ctx)
+        no_crash('_concrete', _concrete, ctx)
 
 
 # a per-call memo of resolved fields in flattenEvent (one keyed wrongly = mutant, one keyed properly = silent variant)
@@ -656,6 +689,19 @@ def _enc_class(codec):
 
 
 _READER_OLD = "        s.append(literalText)\n\n        if fieldName is not None:\n            key = keyFlattener.flatKey(fieldName, formatSpec, conversion or \"s\")\n            s.append(str(fieldValues[key]))\n"
+
+# round-4 shapes: the table search in a private helper returning (uuid, saver); the reader writing into a StringIO
+_HOOK_OLD = ("    for predicate, uuid, saver, loader in classInfo:\n        if predicate(pythonObject):\n            result = saver(pythonObject)\n"
+             "            result[\"__class_uuid__\"] = str(uuid)\n            return result\n    return {\"unpersistable\": True}\n")
+_HOOK_NEW = ("    found = _entryFor(pythonObject)\n    if found is None:\n        return {\"unpersistable\": True}\n    marker, save = found\n"
+             "    result = save(pythonObject)\n    result[\"__class_uuid__\"] = str(marker)\n    return result\n")
+
+
+def _hook_helper(column):
+    return (JSON, "def objectSaveHook(pythonObject: object) -> JSONDict:\n",
+            "def _entryFor(thing):\n    for predicate, uuid, saver, loader in classInfo:\n        if predicate(thing):\n"
+            f"            return uuid, {column}\n    return None\n\n\ndef objectSaveHook(pythonObject: object) -> JSONDict:\n")
+
 
 MUTANTS = [
     Mutant("reader-default-conversion-empty", FLAT, "conversion or \"s\")", "conversion or \"\")", expect_rule="roundtrip/concrete-family"),
@@ -702,6 +748,7 @@ MUTANTS = [
            more=[(FLAT, "        fields[flattenedKey] = flattenedValue\n        fields[structuredKey] = fieldValue\n",
                   "        if flattenedKey not in fields:\n            fields[flattenedKey] = flattenedValue\n            fields[structuredKey] = fieldValue\n")],
            expect_rule="writer/resolves-only-unseen-fields"),
+    Mutant("table-search-helper-returns-the-loader", JSON, _HOOK_OLD, _HOOK_NEW, more=[_hook_helper("loader")], expect_rule="roundtrip/concrete-family"),
     Mutant("json-without-flatten", JSON, "    flattenEvent(event)\n    return dumps(", "    return dumps(", expect_rule="json/flatten-before-dumps"),
     Mutant("reader-joins-with-space", FLAT, "    return \"\".join(s)", "    return \" \".join(s)", expect_rule="roundtrip/concrete-family"),
     Mutant("reader-field-before-literal", FLAT, "        s.append(literalText)\n\n        if fieldName is not None:\n            key = keyFlattener.flatKey(fieldName, formatSpec, conversion or \"s\")\n            s.append(str(fieldValues[key]))\n",
@@ -742,5 +789,9 @@ SILENT = [
            "        if fieldName is None:\n            s.append(literalText)\n        else:\n            s += (literalText, str(fieldValues[keyFlattener.flatKey(fieldName, formatSpec, conversion or \"s\")]))\n"),
     Silent("seen-check-as-positive-condition", FLAT, "        if flattenedKey in fields:\n            # We've already seen and handled this key\n            continue\n\n        if fieldName.endswith(\"()\"):\n            fieldName = fieldName[:-2]\n            callit = True\n        else:\n            callit = False\n\n        field = aFormatter.get_field(fieldName, (), event)\n        fieldValue = field[0]\n\n" + _CONV_FIXED + "\n        if callit:\n            fieldValue = fieldValue()\n\n        flattenedValue = conversionFunction(fieldValue)\n        fields[flattenedKey] = flattenedValue\n        fields[structuredKey] = fieldValue\n",
            "        if flattenedKey not in fields:\n            callit = fieldName.endswith(\"()\")\n            fieldValue = aFormatter.get_field(fieldName[:-2] if callit else fieldName, (), event)[0]\n            if callit:\n                fieldValue = fieldValue()\n            fields[flattenedKey] = {\"r\": repr, \"a\": ascii}.get(conversion, str)(fieldValue)\n            fields[structuredKey] = fieldValue\n"),
+    Silent("table-search-in-private-helper", JSON, _HOOK_OLD, _HOOK_NEW, more=[_hook_helper("saver")]),
+    Silent("reader-writes-into-stringio", FLAT, "    s = []\n", "    out = StringIO()\n",
+           more=[(FLAT, "        s.append(literalText)\n", "        out.write(literalText)\n"), (FLAT, "            s.append(str(fieldValues[key]))\n", "            out.write(str(fieldValues[key]))\n"),
+                 (FLAT, "    return \"\".join(s)", "    return out.getvalue()"), (FLAT, "from collections import defaultdict\n", "from collections import defaultdict\nfrom io import StringIO\n")]),
     Silent("json-local-for-text", JSON, "    flattenEvent(event)\n    return dumps(event, default=default, skipkeys=True)", "    flattenEvent(event)\n    text = dumps(event, default=default, skipkeys=True)\n    return text"),
 ]
